@@ -6,6 +6,8 @@ import (
 	"sync"
 
 	"github.com/aptpod/iscp-go/internal/vf"
+	"github.com/aptpod/iscp-go/transport"
+	"github.com/aptpod/iscp-go/transport/compress"
 	quicgo "github.com/quic-go/quic-go"
 )
 
@@ -23,7 +25,17 @@ type zzSend struct {
 	p *zzPipe
 }
 
+// zzOnStreamWrite, when set, runs at the start of every Write on a send stream with the number of
+// writes seen so far (interference point between a frame's header and its payload).
+var zzOnStreamWrite func(k int)
+var zzStreamWrites int
+
 func (s *zzSend) Write(b []byte) (int, error) {
+	if h := zzOnStreamWrite; h != nil {
+		k := zzStreamWrites
+		zzStreamWrites++
+		h(k)
+	}
 	c := make([]byte, len(b))
 	copy(c, b)
 	s.p.mu.Lock()
@@ -196,6 +208,87 @@ func zzC14gDatagram() {
 		g1, e1 := ub.Read()
 		g2, e2 := ub.Read()
 		vf.Assert("datagrams-reassembled", e1 == nil && e2 == nil && zzSame(g1, m2) && zzSame(g2, m1))
+	}
+	vf.Reach("end")
+}
+
+// C14.i: several datagram writers on one transport (two handles from AsUnreliable and the
+// transport's own WriteUnreliable): every message in flight carries its own sequence number, so the
+// peer - which keys reassembly by that number - hands up exactly the written messages whatever the
+// arrival order, never a mixture.
+func zzC14iTwoWriters() {
+	ta, tb, ca, cb := zzPair(false)
+	u1, _ := ta.AsUnreliable()
+	u2, _ := ta.AsUnreliable()
+	ub, _ := tb.AsUnreliable()
+	m1, m2, m3 := vf.BytesN("m1", 2), vf.BytesN("m2", 2), vf.BytesN("m3", 2)
+	vf.Assume(!zzSame(m1, m2) && !zzSame(m1, m3) && !zzSame(m2, m3))
+	vf.Assert("dg-write-ok", u1.Write(m1) == nil && u2.Write(m2) == nil && ta.WriteUnreliable(m3) == nil)
+	vf.Assert("one-datagram-each", len(ca.dgOut) == 3)
+	if len(ca.dgOut) != 3 {
+		return
+	}
+	seq := func(d []byte) uint32 { return uint32(d[0])<<24 | uint32(d[1])<<16 | uint32(d[2])<<8 | uint32(d[3]) }
+	s1, s2, s3 := seq(ca.dgOut[0]), seq(ca.dgOut[1]), seq(ca.dgOut[2])
+	vf.Assert("sequence-numbers-of-messages-in-flight-are-distinct", s1 != s2 && s1 != s3 && s2 != s3)
+	perm := [][3]int{{0, 1, 2}, {0, 2, 1}, {1, 0, 2}, {1, 2, 0}, {2, 0, 1}, {2, 1, 0}}[vf.Choose("arrival.order", 6)]
+	for _, i := range perm {
+		cb.dgIn <- ca.dgOut[i]
+	}
+	vf.Settle()
+	want := [][]byte{m1, m2, m3}
+	for _, i := range perm {
+		g, e := ub.Read()
+		vf.Assert("each-message-handed-up-exactly", e == nil && zzSame(g, want[i]))
+	}
+	vf.Reach("end")
+}
+
+// C13.e: QUIC transport with per-message compression negotiated (compress/flate replaced by the
+// framing stub): messages round-trip on the stream and on the datagram channel, and a datagram
+// writer that runs while a stream writer sits between a frame's length header and its payload does
+// not disturb either message.
+func zzC13eCompressedWriters() {
+	ab := &zzPipe{ch: make(chan []byte, 64)}
+	ba := &zzPipe{ch: make(chan []byte, 64)}
+	ca := &zzConn{out: ab, in: ba, dgIn: make(chan []byte, 16)}
+	cb := &zzConn{out: ba, in: ab, dgIn: make(chan []byte, 16)}
+	level := 1 + vf.Choose("level", 2)
+	np := NegotiationParams{NegotiationParams: transport.NegotiationParams{Compress: compress.TypePerMessage, CompressLevel: &level}}
+	ta, err1 := New(Config{Connection: ca, NegotiationParams: np})
+	tb, err2 := New(Config{Connection: cb, NegotiationParams: np})
+	vf.Assume(err1 == nil && err2 == nil)
+	vf.Assert("compression-is-on", ta.compressConfig.Enable && tb.compressConfig.Enable && ta.compressConfig.Level == level)
+	ub, _ := tb.AsUnreliable()
+	ua, _ := ta.AsUnreliable()
+	mA, mB, mC := vf.BytesN("stream.msg", 3), vf.BytesN("datagram.msg", 2), vf.BytesN("second.stream.msg", 1)
+	interfere := vf.Choose("datagram.writer", 3) // 0 none, 1 WriteUnreliable, 2 an AsUnreliable handle
+	var derr error
+	zzStreamWrites = 0
+	zzOnStreamWrite = func(k int) {
+		if k == 1 && interfere != 0 { // message A's header is out, its payload is next
+			if interfere == 1 {
+				derr = ta.WriteUnreliable(mB)
+			} else {
+				derr = ua.Write(mB)
+			}
+		}
+	}
+	vf.Assert("stream-write-ok", ta.Write(mA) == nil && derr == nil)
+	zzOnStreamWrite = nil
+	vf.Assert("second-stream-write-ok", ta.Write(mC) == nil)
+	for _, d := range ca.dgOut {
+		cb.dgIn <- d
+	}
+	vf.Settle()
+	g1, e1 := tb.Read()
+	vf.Assert("stream-message-byte-identical", e1 == nil && zzSame(g1, mA))
+	g2, e2 := tb.Read()
+	vf.Assert("next-stream-message-byte-identical", e2 == nil && zzSame(g2, mC))
+	if interfere != 0 {
+		vf.Assert("one-datagram", len(ca.dgOut) == 1)
+		g3, e3 := ub.Read()
+		vf.Assert("datagram-message-byte-identical", e3 == nil && zzSame(g3, mB))
 	}
 	vf.Reach("end")
 }
